@@ -181,6 +181,15 @@ def check_case(acc, case):
                             T[s, a, b, e, :] = 50.0 * unit
                 for (a, b) in adm:
                     T[s, a, b, e, 0] = 1.0 * unit * ((a + 2 * b) % 3)
+            elif case.get("shape") == "neg":
+                # every score NEGATIVE (level - 5 units): maxima and maximisers are still defined
+                T[..., 0] = -5.0 * unit
+                for (s, a, b, e, lv) in case["cells"]:
+                    T[s, a, b, e, 0] = (lv - 5.0) * unit
+            elif case.get("shape") == "tight":
+                # level 1 = the threshold exactly; levels 2, 3 exceed it by 2^-20, 2^-19 of its size
+                for (s, a, b, e, lv) in case["cells"]:
+                    T[s, a, b, e, 0] = (1.0 + (lv - 1.0) * 2.0 ** -20) * unit
             else:
                 fill(T, case["cells"], unit, p, case.get("decoy", ()))
             an, rows, thr_rb = cbs(n, p, msl, M, g, TableLocalScore(T), thr_scale)
@@ -218,8 +227,17 @@ def make_score(name):
     from skchange.anomaly_scores import LocalAnomalyScore
     from skchange.costs import GaussianVarCost, L2Cost
 
+    from skchange.costs import GaussianCovCost
+
     return {"L2cost": lambda: L2Cost(), "L2": lambda: LocalAnomalyScore(L2Cost()),
-            "GV": lambda: LocalAnomalyScore(GaussianVarCost())}[name]()
+            "GV": lambda: LocalAnomalyScore(GaussianVarCost()), "Cov": lambda: GaussianCovCost()}[name]()
+
+
+def two_generic_columns(xs):
+    """2-column data in which (almost) every window of 3 rows has a positive definite sample covariance: the series plus
+    a texture, and a second 'generic' column."""
+    n = len(xs)
+    return [[float(xs[t]) + 0.25 * (((t * 7 + 3) % 5) - 2) / 2.0, ((t * t * 3 + t) % 7) / 4.0 + 0.5 * float(xs[n - 1 - t])] for t in range(n)]
 
 
 def check_data(acc, case, key):
@@ -228,6 +246,28 @@ def check_data(acc, case, key):
         X = X.reshape(-1, 1)
     n, p = X.shape
     msl, M, g = case["msl"], case["M"], case["growth"]
+    if case["score"] == "Cov":
+        # multivariate cost: the oracle is the DEFINITION C(s,e) - C(a,b) - C(rows of [s,a) and [b,e) pooled), each term
+        # from a fresh cost fitted on exactly those rows and summed over its output columns
+        def whole(rows_):
+            return float(make_score("Cov").fit(rows_).evaluate(np.array([[0, len(rows_)]])).sum())
+
+        try:
+            an, rows, thr = cbs(n, p, msl, M, g, make_score("Cov"), case["thr_scale"], X=pd.DataFrame(X))
+
+            def agg(s, e, inner):
+                return [whole(X[s:e]) - whole(X[a:b]) - whole(np.concatenate((X[s:a], X[b:e]))) for a, b in inner]
+
+            if not check_rows(acc, case, key, rows, n, msl, agg, tol=1e-7):
+                return
+        except RuntimeError:
+            acc.count("cov_data_with_a_singular_window_skipped")
+            return
+        check_greedy(acc, case, key, rows, an, thr, msl)
+        if an:
+            acc.nt()
+        acc.outcome(f"K={len(an)}")
+        return
     an, rows, thr = cbs(n, p, msl, M, g, make_score(case["score"]), case["thr_scale"], X=pd.DataFrame(X), level=case.get("level"),
                         fit_rows=case.get("fit_rows"))
     ref = make_score("L2" if case["score"] == "L2cost" else case["score"]).fit(X)
@@ -301,6 +341,8 @@ def rowmax_cases(tier):
                     decoy = [(s, a, b, e, 2.0)]
                 yield {"fam": "rowmax", "n": n, "p": p, "msl": msl, "M": M, "growth": g, "cells": cells, "decoy": decoy,
                        "thr_scale": 0.0}
+                if p == 1 and len(inner) <= 4:
+                    yield {"fam": "rowmax", "n": n, "p": 1, "msl": msl, "M": M, "growth": g, "cells": cells, "thr_scale": 0.0, "shape": "neg"}
 
 
 def dev(m, nz, d):
@@ -349,6 +391,9 @@ def greedy_dev_cases(tier):
                         for lv in LEVELS[1:]:
                             yield {"fam": "greedy-dev", "n": n, "p": 1, "msl": msl, "M": M, "growth": g,
                                    "cells": [c + (lv,)], "mono": True}
+                            for shape in ("tight", "neg"):
+                                yield {"fam": "greedy-dev", "n": n, "p": 1, "msl": msl, "M": M, "growth": g,
+                                       "cells": [c + (lv,)], "mono": False, "shape": shape}
                     for x, y in itertools.combinations(one, 2):
                         if (x[0], x[3]) == (y[0], y[3]):
                             continue
@@ -357,6 +402,9 @@ def greedy_dev_cases(tier):
                         for lx, ly in ((2.0, 2.0), (3.0, 2.0), (2.0, 3.0)):
                             yield {"fam": "greedy-dev", "n": n, "p": 2 if (x[1] + y[2]) % 4 == 0 else 1, "msl": msl, "M": M,
                                    "growth": g, "cells": [x + (lx,), y + (ly,)], "mono": lx != ly}
+                            if lx != ly and (x[1] + y[2]) % 3 == 0:
+                                yield {"fam": "greedy-dev", "n": n, "p": 1, "msl": msl, "M": M,
+                                       "growth": g, "cells": [x + (lx,), y + (ly,)], "mono": False, "shape": "tight"}
 
 
 def data_cases(tier, seed):
@@ -380,6 +428,10 @@ def data_cases(tier, seed):
     for n in (6, 7):
         for xs in itertools.product((0, 3), repeat=n):
             yield {"fam": "data", "x": util.three_columns(xs), "score": "L2cost", "msl": 1 if n == 6 else 2, "M": n, "growth": 1.5, "thr_scale": 0.05}
+    # multivariate cost (one output column whatever p is), two generic columns
+    for n in (7, 8) if tier == "quick" else (7, 8, 9, 10, 11):
+        for xs in itertools.product((0, 3), repeat=n):
+            yield {"fam": "data", "x": two_generic_columns(xs), "score": "Cov", "msl": 3, "M": n, "growth": 1.5, "thr_scale": 0.05}
     # fitted on a shorter prefix, predicting the full series
     for n in (7, 8) if tier == "quick" else (7, 8, 9):
         for xs in itertools.product((0, 3), repeat=n):
@@ -415,8 +467,9 @@ def bounds(tier, seed):
         "rowmax configs": "n<=7 / 8; all {0,1,2} tables for candidates with <=6/7 inner intervals, <=2 deviations otherwise",
         "greedy": "configs n<=8 / 10 with <=6/7 usable candidates; levels (0,1,2,3) x threshold; inner intervals {first,last,middle,shortest,longest}",
         "greedy-dev": "n in (8,9,10,12) / (8..14), M in {n, n//2}, msl<=3; all single deviations and all pairs on overlapping candidates",
+        "shapes": "plain; 'tight' = levels 2, 3 exceed the threshold by only 2^-20, 2^-19 of its size; 'neg' = every score negative (level - 5 units); on rowmax (<=4 inner intervals) and greedy-dev",
         "long": "piecewise-constant textured series n in (12,16) quick / up to 24, <= 2 changes, msl in (1,2,4,5)",
-        "data": "all series over (0,4) n<=9/10; (0,1,3) and seed-affine image n<=7/8; 2-column (0,3) n<=5; L2Cost msl 1, LocalAnomalyScore(L2Cost) msl 2, LocalAnomalyScore(GaussianVarCost) msl 2; thresholds 0, 0.05*default, tuned",
+        "data": "GaussianCovCost on 2 generic columns n in (7,8) / (7..11), msl 3; all series over (0,4) n<=9/10; (0,1,3) and seed-affine image n<=7/8; 2-column (0,3) n<=5; L2Cost msl 1, LocalAnomalyScore(L2Cost) msl 2, LocalAnomalyScore(GaussianVarCost) msl 2; thresholds 0, 0.05*default, tuned",
     }
 
 
